@@ -388,7 +388,31 @@ class AsyncParmapperAsyncFunc(Unit):
                 ex.oblige(s, 'exit(raise): only what calling self._func(x, **kwargs) itself raised', z3.And(z3.Not(ok), p == exc))
 
 
-UNITS_APARMAP = [AsyncParmapperIter, AsyncParmapperIterProcess, AsyncParmapperFunc, AsyncParmapperAsyncIter, AsyncParmapperAsyncFunc]
+# ---------------------------------------------------------------- AsyncStream.parmap: which operator is built, and with what
+from contracts.c03 import BuilderUnit, T, is_coro, ClassCtor      # noqa: E402
+
+
+class AsyncBuildParmap(BuilderUnit):
+    """AsyncStream.parmap(func, ...): appends exactly one stage over the previous one -- AsyncParmapperAsync for a coroutine function, AsyncParmapper (sync worker
+    on an executor) otherwise -- with the caller's concurrency / return_x / return_exceptions and its other keyword arguments; returns self; consumes nothing."""
+    prop = 'C16'
+    file = 'streamer/_streamer_async.py'
+    qual = 'AsyncStream.parmap'
+    canaries = (('return_x and return_exceptions swapped', 'return_x=return_x,\n                return_exceptions=return_exceptions,', 'return_x=return_exceptions,\n                return_exceptions=return_x,', ''),
+                ('sync worker handed to the coroutine operator', 'if inspect.iscoroutinefunction(func):', 'if not inspect.iscoroutinefunction(func):', ''))
+
+    def extra_setup(self, ex, st):
+        for n in ('AsyncParmapper', 'AsyncParmapperAsync'):
+            self.C[n] = ClassCtor(n)
+            ex.globals[n] = self.C[n]
+
+    @staticmethod
+    def expect(C, last, P, kw):
+        mk = lambda n: T(C, n, [last, P['func']], kw, concurrency=P['concurrency'], return_x=P['return_x'], return_exceptions=P['return_exceptions'])
+        return z3.If(is_coro(P['func']), mk('AsyncParmapperAsync'), mk('AsyncParmapper'))
+
+
+UNITS_APARMAP = [AsyncBuildParmap, AsyncParmapperIter, AsyncParmapperIterProcess, AsyncParmapperFunc, AsyncParmapperAsyncIter, AsyncParmapperAsyncFunc]
 
 from contracts.server import ACallUnit, AStreamUnit, AEnqueueUnit, AGatherUnit, AWaitUnit      # noqa: E402
 from contracts.buffer import ParmapperAsyncIter, DoAsyncMain, AsyncIterIter        # noqa: E402
